@@ -289,3 +289,38 @@ Example C04_expiry_hop_nonvacuous :
   | _ => False
   end.
 Proof. vm_compute. reflexivity. Qed.
+
+(* A browser that joins late ("arbitrary start order"): created while the provider is already serving, it has heard no
+   announcement.  Its creation question - PTR for its type, no known answers - reaches the provider, whose answer (C11: a
+   PTR answer is accompanied by the SRV and TXT records) carries the three served records; hearing it, the browser
+   reports the service and is in the state of a browser that heard the announcement (BI: the invariant of
+   C04_pair_converges_partial holds from then on). *)
+Theorem C04_late_joiner_reported_partial T c L nowb (wq : world) src port id :
+  T <> [] -> bytes_eqb T browse_type = false ->
+  lreach c L -> TInv T c -> pv_exists (cp_prov c) = true -> pv_confirmed (cp_prov c) = true ->
+  BI T [] wq ->
+  let q := mkMessage src port id false false [mkQuery (Some T) T_PTR false] [] in
+  exists reply nm,
+    prov_on_message (cp_prov c) q = [ESend reply] /\
+    m_records reply = [pv_ptr (cp_prov c); pv_srv (cp_prov c); pv_txt (cp_prov c)] /\ m_response reply = true /\
+    BI T [pv_ptr (cp_prov c); pv_srv (cp_prov c); pv_txt (cp_prov c)] (fst (browser_on_message nowb 0 reply wq)) /\
+    In (ESig 0%N SIG_serviceAdded (PService (svc_of T nm (pv_srv (cp_prov c)) (pv_txt (cp_prov c)))))
+       (snd (browser_on_message nowb 0 reply wq)).
+Proof. exact (late_joiner_reported T c L nowb wq src port id). Qed.
+Print Assumptions C04_late_joiner_reported_partial.
+
+Theorem C04_creation_question T :
+  exists m, browser_query_timeout 0 (mkWorld [empty_cache] [mkBrowser (Some T) 0 [] [] []] 0) = [ESendAll m; EStart (T_QUERY_OF 0) browse_period_ms] /\
+            m_queries m = [mkQuery (Some T) T_PTR false] /\ m_records m = [] /\ m_response m = false.
+Proof. exact (creation_question T). Qed.
+Print Assumptions C04_creation_question.
+
+(* "... of its type": the announcement or goodbye of a service of another type T' leaves a browser of type T exactly as
+   it was - cache, reported services and output (T is not the enumeration name; the instance's full name does not happen
+   to end in ".T", which a type like "_sub._t." nested under "_t." would make it do) *)
+Theorem C04_other_type_ignored_partial now (ptr srv txt : record) (T T' nm : list N) addr port id c b :
+  announces ptr srv txt T' nm -> b_type b = Some T -> bytes_eqb T browse_type = false ->
+  bytes_eqb T' T = false -> ends_with ([DOT] ++ T) (nm ++ DOT :: T') = false ->
+  browser_on_message now 0 (mkMessage addr port id true false [] [ptr; srv; txt]) (mkWorld [c] [b] 0) = (mkWorld [c] [b] 0, []).
+Proof. exact (other_type_ignored now ptr srv txt T T' nm addr port id c b). Qed.
+Print Assumptions C04_other_type_ignored_partial.
